@@ -38,7 +38,7 @@ ASSUMPTIONS = [
     "collision *rates* of large key families are a performance statement and are not decided here",
 ]
 BOUNDS = {
-    "quick": "(a) depth <= 2 over key kinds {attr, str, int, float, tuple(int,str)}, every key <= 5 printed characters, all ordered pairs of kind sequences; (b) all paths of depth 1..3 over a 13-step adversarial pool (2379 paths, all pairs), 2 labels",
+    "quick": "(a) depth <= 2 over key kinds {attr, str, int, float, tuple(int,str)} plus one-element tuples (int,), (str,) and the empty tuple alone and after an attr/int step; templates are taken with marker keys of the real key type (str/int/float subclasses, real tuples of them), every key slot <= 5 printed characters, all ordered pairs of kind sequences (1521); (b) all paths of depth 1..3 over a 19-step adversarial pool (7239 paths, all 26 M pairs), 2 labels",
     "thorough": "(a) key length <= 7 and depth-3 sequences against depth <= 3 with the same first step; (b) both builds",
 }
 OUTSIDE = "keys of other types; printed key length beyond the bound; collision rates"
@@ -75,13 +75,59 @@ class Marker:
         return isinstance(o, Marker) and o.i == self.i
 
 
+def _marker_type(base):
+    """a real str / int / float whose repr/str/format are markers: code that prints keys depending on
+    their type (isinstance tests, special cases for tuples) follows the branch of the real key type"""
+    class M(base):
+        def __new__(cls, i):
+            o = base.__new__(cls, {str: f"m{i}", int: 1000 + i, float: 1000.5 + i}[base])
+            o.i = i
+            return o
+
+        def __repr__(self):
+            return f"\x00R{self.i}\x00"
+
+        def __str__(self):
+            return f"\x00S{self.i}\x00"
+
+        def __format__(self, spec):
+            return str(self)
+
+        def __hash__(self):
+            return base.__hash__(self)
+    M.__name__ = "M" + base.__name__
+    return M
+
+
+MStr, MInt, MFlt = _marker_type(str), _marker_type(int), _marker_type(float)
+# step kind -> (constructor of the marker key, kinds of its slots)
+KEYKINDS = {
+    "attr": (lambda i: Marker(10 * i), ["attr"]),
+    "str": (lambda i: MStr(10 * i), ["str"]),
+    "int": (lambda i: MInt(10 * i), ["int"]),
+    "flt": (lambda i: MFlt(10 * i), ["flt"]),
+    "tup": (lambda i: (MInt(10 * i), MStr(10 * i + 1)), ["int", "str"]),
+    "tup1i": (lambda i: (MInt(10 * i),), ["int"]),
+    "tup1s": (lambda i: (MStr(10 * i),), ["str"]),
+    "tup0": (lambda i: (), []),
+}
+
+
+def slot_kinds(shape):
+    out = {}
+    for i, k in enumerate(shape):
+        for c, sk in enumerate(KEYKINDS[k][1]):
+            out[10 * i + c] = sk
+    return out
+
+
 def template(xd, shape):
     """printed form of a path with the given step kinds, as list of literal pieces and key slots"""
     R = xd.refs
     m = xd.Manager()
     ref = m.ref({}, "d")
     for i, k in enumerate(shape):
-        mk = Marker(i)
+        mk = KEYKINDS[k][0](i)
         ref = R.AttrRef(ref, mk, m) if k == "attr" else R.ItemRef(ref, mk, m)
     text = str(ref)
     parts = text.split("\x00")
@@ -114,23 +160,26 @@ def languages():
     nat = z3.Union(z3.Re("0"), z3.Concat(z3.Range("1", "9"), z3.Star(dig)))
     integer = z3.Concat(z3.Option(z3.Re("-")), nat)
     flt = z3.Concat(integer, z3.Re("."), z3.Plus(dig))
-    tup = z3.Concat(z3.Re("("), integer, z3.Re(", "), strlit, z3.Re(")"))
-    return {"attr": ident, "str": strlit, "int": integer, "flt": flt, "tup": tup, "rawstr": z3.Star(ANY)}
+    return {"attr": ident, "str": strlit, "int": integer, "flt": flt, "rawstr": z3.Star(ANY)}
 
 
 def printed(tmpl, tag, shape):
-    parts, keys = [], []
+    """(z3 string of the printed path, [(slot id, variable, language)]) - one variable per key slot of the
+    path, whether the real __repr__ prints it or not (a slot that is not printed stays unconstrained)"""
+    sk = slot_kinds(shape)
+    var = {v: z3.String(f"{tag}_{v}") for v in sk}
+    lang = dict(sk)
+    parts = []
     for item in tmpl:
         if item[0] == "lit":
             parts.append(z3.StringVal(item[1]))
         else:
             v, how = item[1], item[2]
-            s = z3.String(f"{tag}_{v}")
-            k = shape[v]
-            # a str key printed with str() instead of repr() is raw text
-            keys.append((s, "rawstr" if (k == "str" and how == "S") else k))
-            parts.append(s)
-    return (z3.Concat(*parts) if len(parts) > 1 else parts[0]), keys
+            if sk[v] == "str" and how == "S":
+                lang[v] = "rawstr"          # a str key printed with str() instead of repr() is raw text
+            parts.append(var[v])
+    keys = [(v, var[v], lang[v]) for v in sorted(sk)]
+    return (z3.Concat(*parts) if len(parts) > 1 else (parts[0] if parts else z3.StringVal(""))), keys
 
 
 def cvc5_unsat(smt2):
@@ -162,11 +211,15 @@ def run_decode(ex, case):
     p2, k2 = printed(t2, "q", s2)
     s = z3.Solver()
     s.set("timeout", QUERY_TIMEOUT_MS)
-    for v, kind in k1 + k2:
+    for _, v, kind in k1 + k2:
         s.add(z3.InRe(v, L[kind]), z3.Length(v) <= case["maxlen"])
     s.add(p1 == p2)
     if s1 == s2:
-        s.add(z3.Or(*[a != b for (a, _), (b, _) in zip(k1, k2)]))
+        if not k1:
+            note(ex, "decodable_unsat")
+            ex.stats.proved += 1
+            return
+        s.add(z3.Or(*[a != b for (_, a, _), (_, b, _) in zip(k1, k2)]))
     t0 = time.perf_counter()
     r = s.check()
     ex.stats.solver_s += time.perf_counter() - t0
@@ -189,19 +242,26 @@ def run_decode(ex, case):
     ex.stats.sat += 1
     mo = s.model()
     import ast
-    vals1 = [mo.eval(v, model_completion=True).as_string() for v, _ in k1]
-    vals2 = [mo.eval(v, model_completion=True).as_string() for v, _ in k2]
+    vals1 = {slot: mo.eval(v, model_completion=True).as_string() for slot, v, _ in k1}
+    vals2 = {slot: mo.eval(v, model_completion=True).as_string() for slot, v, _ in k2}
+    lang1 = {slot: k for slot, _, k in k1}
+    lang2 = {slot: k for slot, _, k in k2}
     # replay: build the two refs with the real constructors from the decoded keys
     try:
         R = xd.refs
         m = xd.Manager()
 
-        def build(shape, vals):
+        def build(shape, vals, lang):
             ref = m.ref({}, "d")
-            for kind, txt in zip(shape, vals):
-                ref = R.AttrRef(ref, txt, m) if kind == "attr" else R.ItemRef(ref, txt if kind == "rawstr" else ast.literal_eval(txt), m)
+            for i, kind in enumerate(shape):
+                comp = [vals[10 * i + c] if lang[10 * i + c] in ("attr", "rawstr") else ast.literal_eval(vals[10 * i + c])
+                        for c in range(len(KEYKINDS[kind][1]))]
+                if kind == "attr":
+                    ref = R.AttrRef(ref, comp[0], m)
+                else:
+                    ref = R.ItemRef(ref, tuple(comp) if kind.startswith("tup") else comp[0], m)
             return ref
-        a, b = build([k for _, k in k1], vals1), build([k for _, k in k2], vals2)
+        a, b = build(s1, vals1, lang1), build(s2, vals2, lang2)
         same_path = (s1 == s2 and [repr(x) for x in _keys(a)] == [repr(x) for x in _keys(b)])
         if (a == b) and not same_path:
             ex.fail(f"two different paths compare equal: {a} ({s1}: {vals1}) and {b} ({s2}: {vals2})", det)
@@ -221,7 +281,8 @@ def _keys(ref):
 
 # ----------------------------------------------------------------- (b) pool
 STEPS = [("attr", "x"), ("item", "x"), ("item", "1"), ("item", 1), ("item", -1), ("item", -2), ("item", 1.5),
-         ("item", ("x", 1)), ("item", "x']['k"), ("item", "a.x"), ("item", "é"), ("item", "it's"), ("attr", "k"), ("item", "k")]
+         ("item", ("x", 1)), ("item", "x']['k"), ("item", "a.x"), ("item", "é"), ("item", "it's"), ("attr", "k"), ("item", "k"),
+         ("item", (1,)), ("item", ("x",)), ("item", ()), ("item", "1,"), ("item", (1, "x"))]
 
 
 def build_path(xd, m, root, steps):
@@ -257,14 +318,17 @@ def run_pool(ex, case):
     texts = [str(r) for r in refs]
     byhash = {}
     n = len(refs)
-    for i in range(n):
+    part, parts = case.get("part", 0), case.get("parts", 1)
+    for i in range(part, n, parts):
         ai = refs[i]
         for j in range(i + 1, n):
             if ai == refs2[j]:
                 ex.fail(f"different paths compare equal: {paths[i]} -> {texts[i]}  and  {paths[j]} -> {texts[j]} (hashes equal: {hash(ai) == hash(refs2[j])})",
                         {"p1": repr(paths[i]), "p2": repr(paths[j])})
                 return
-    note(ex, "pool_pairs", n * (n - 1) // 2)
+    note(ex, "pool_pairs", sum(n - 1 - i for i in range(part, n, parts)))
+    if part:
+        return
     # dict / set membership
     dct = {r: i for i, r in enumerate(refs)}
     if len(dct) != n:
@@ -307,9 +371,12 @@ def run_case(ex, case):
 def cases(tier):
     out = []
     kinds = ["attr", "str", "int", "flt", "tup"]
+    more = ["tup1i", "tup1s", "tup0"]
     builds = ["pure"] if tier == "quick" else ["pure", "compiled"]
     D = 2
     shapes = [list(sh) for d in range(1, D + 1) for sh in itertools.product(kinds, repeat=d)]
+    # one-element and empty tuples: alone, and after an attribute / int step
+    shapes += [[k] for k in more] + [[a, k] for a in (["attr", "int"] if tier == "quick" else kinds) for k in more]
     for s1 in shapes:
         for s2 in shapes:
             out.append({"mode": "decode", "build": "pure", "s1": s1, "s2": s2, "maxlen": 5 if tier == "quick" else 7})
@@ -319,5 +386,6 @@ def cases(tier):
                 if s2[0] == s1[0]:
                     out.append({"mode": "decode", "build": "pure", "s1": list(s1), "s2": s2, "maxlen": 5})
     for b in builds:
-        out.append({"mode": "pool", "build": b, "depth": 3})
+        for part in range(12):
+            out.append({"mode": "pool", "build": b, "depth": 3, "part": part, "parts": 12})
     return out
